@@ -122,6 +122,15 @@ def _guarded(thunk):
         signal.signal(signal.SIGALRM, old)
 
 
+def _lines_consistent(lines):
+    """every line handed out must measure itself correctly: .width and len() of a line are those of its characters
+    (a line is an ordinary FmtStr; what built it must not leave wrong memoised measurements behind)"""
+    for ln in lines:
+        if ln.width != sum(max(wcwidth(c), 0) for c in ln.s) or len(ln) != len(ln.s):
+            return False
+    return True
+
+
 def _interleaved(f, cols):
     """the wraps for all column values as generators that are alive at the same time and advanced in turn (side by
     side layout, zip() of two wraps): each must behave as if it were alone"""
@@ -155,9 +164,17 @@ def run(inp):
             return _guarded(lambda: _interleaved(f, inp["columns"]))
         except Hang:
             return [["raise", "OtherError"] for _ in inp["columns"]]
-    return [canon.outcome(lambda: _guarded(lambda: list(f.width_aware_splitlines(n))),
-                          lambda ls: [canon.canon_fs(x) for x in ls])
-            for n in inp["columns"]]
+    def conv(ls):
+        if not _lines_consistent(ls):
+            raise canon.Unrepresentable("a line's own width / len disagree with its characters")
+        return [canon.canon_fs(x) for x in ls]
+    outs = []
+    for n in inp["columns"]:
+        try:
+            outs.append(canon.outcome(lambda: _guarded(lambda: list(f.width_aware_splitlines(n))), conv))
+        except canon.Unrepresentable:
+            outs.append(["raise", "OtherError"])
+    return outs
 
 
 def widths_literal(chars):
